@@ -2,7 +2,7 @@
    Only statements, `exact <lemma>` and Print Assumptions live here. *)
 From Coq Require Import ZArith List Bool String Lia.
 From BNP Require Import Base.Prims Model.C04 Proofs.C04 Proofs.C04_raw Proofs.C04_bam Proofs.C04_lines Proofs.C04_sam
-  Proofs.C04_crlf Proofs.C04_oneline Proofs.C04_repl Proofs.C04_samjoin Gen.C04 Bridge.C04.
+  Proofs.C04_crlf Proofs.C04_oneline Proofs.C04_repl Proofs.C04_samjoin Proofs.C04_session Gen.C04 Bridge.C04.
 Import ListNotations.
 Open Scope Z_scope.
 
@@ -224,6 +224,24 @@ Theorem C04_sam_join_fields :
     sam_join_src n rows = List.concat (map (join_row repaired FSam) rows).
 Proof. exact sam_join_src_correct. Qed.
 Print Assumptions C04_sam_join_fields.
+
+(* SESSIONS (named tables): a table derived by p from the table an earlier program q produced is, in the model, the table
+   of the expanded program [subst_src q p] — tables are values, deriving from a table (replace, select, concatenate, write)
+   never changes it.  The harness expands references this way, writes the source / intermediate tables AFTER the derived
+   ones, and the correspondence compares every written table: an implementation that aliases state (e.g. a shared dict of
+   replaced columns) disagrees with the model on a concrete session. *)
+Theorem C04_session_run :
+  forall f src q s, run f src q = Some s -> forall p, run f src (subst_src q p) = run f s p.
+Proof. exact run_subst. Qed.
+Print Assumptions C04_session_run.
+
+(* the Spec reads the expanded program the same way: rows of p evaluated on the rows of q; pure only if both are *)
+Theorem C04_session_spec :
+  forall f src q p,
+    spec_eval f src (subst_src q p)
+    = (fst (spec_eval f (fst (spec_eval f src q)) p), snd (spec_eval f src q) && snd (spec_eval f (fst (spec_eval f src q)) p)).
+Proof. exact spec_eval_subst. Qed.
+Print Assumptions C04_session_spec.
 
 (* SOURCE TIE — the formulas regenerated from /repo on this run (Gen/C04.v, written by translate/run.py +
    translate/gen_c04.py from io/file_buffers.py, io/bam.py, io/delimited_buffers.py, io/buffers/sam.py) are the ones the
